@@ -38,6 +38,8 @@ def kinds_for(cfg) -> List[str]:
         ks.append("I")
     if cfg.get("cb"):
         ks.append("P+")
+    if cfg.get("eos"):
+        ks.append("X")
     return ks
 
 
@@ -72,7 +74,12 @@ def build(kind: str, rid: Any, token: Any, seq: int) -> Any:
         return [{**j, "id": rid, "result": {"v": "B"}}]
     if kind == "I":
         return {**j, "id": int(rid), "result": {"v": "I"}}
+    if kind == "X":  # the peer ends the stream (connection gone): not a message
+        return dict(CLOSE)
     raise KeyError(kind)
+
+
+CLOSE = {"end-of-stream": True}
 
 
 def _same_id(a, b) -> bool:
@@ -85,6 +92,10 @@ def reference(deliveries, rid, T):
     for (t, rank, wire) in deliveries:
         if isinstance(wire, list):
             continue
+        if wire == CLOSE:
+            if t > T + 1e-12:
+                break
+            return ("closed", None, t, abs(t - T) <= 1e-12)
         if "method" in wire:
             continue
         if not _same_id(wire.get("id"), rid):
@@ -184,7 +195,11 @@ def run_one(ctl: explorer.Ctl, cfg: Dict[str, Any]) -> Dict[str, Any]:
             if pre:
                 wire = build(kinds[pre - 1], rid, token, 0)
                 deliveries.append((0.0, -2, wire))
-                send_r.send_nowait(to_obj(wire))
+                if wire == CLOSE:
+                    send_r.close()
+                    state["stopped"] = True
+                else:
+                    send_r.send_nowait(to_obj(wire))
                 state["n"] += 1
 
             async def cb(progress, total, message):
@@ -221,6 +236,10 @@ def run_one(ctl: explorer.Ctl, cfg: Dict[str, Any]) -> Dict[str, Any]:
         def deliver(wire, t, rank):
             state["scheduled"] = False
             deliveries.append((loop.time(), rank, wire))
+            if wire == CLOSE:
+                state["send_r"].close()
+                state["stopped"] = True
+                return
             try:
                 state["send_r"].send_nowait(to_obj(wire))
             except Exception as e:  # noqa: BLE001
@@ -284,7 +303,7 @@ def run_one(ctl: explorer.Ctl, cfg: Dict[str, Any]) -> Dict[str, Any]:
     exp_kind, exp_payload, exp_t, tie = reference(deliveries, rid, T_eff)
     decider = None
     for (t, rank, w) in deliveries:
-        if not isinstance(w, list) and "method" not in w and _same_id(w.get("id"), rid):
+        if not isinstance(w, list) and w != CLOSE and "method" not in w and _same_id(w.get("id"), rid):
             decider = _kind_of(w, rid, token)
             break
 
@@ -292,7 +311,16 @@ def run_one(ctl: explorer.Ctl, cfg: Dict[str, Any]) -> Dict[str, Any]:
         viol.append({"sig": {"class": cls, **extra}, "msg": f"{msg}; cfg={cfg} history={hist} times={obs['times']}"})
 
     ok = False
-    if exp_kind == okind:
+    if exp_kind == "closed":
+        # the stream ended before any response bearing the id: the call must fail (how is not specified), never return
+        if okind in ("result", "error"):
+            bad("completed-after-stream-ended", f"the read stream ended at {exp_t} without a response for the id, yet the call "
+                                                f"ended with {okind} {oval!r}")
+        elif okind == "timeout" and not abs(elapsed - T_eff) < 1e-9:
+            bad("timeout-at-wrong-time", f"TimeoutError after {elapsed}, deadline {T_eff}")
+        elif elapsed > T_eff + 1e-9:
+            bad("late-completion", f"ended at {elapsed}, deadline {T_eff}")
+    elif exp_kind == okind:
         if okind == "result":
             ok = oval == exp_payload and abs(elapsed - exp_t) < 1e-9
             if not ok:
@@ -374,6 +402,8 @@ def _who(v):
 def _kind_of(w, rid, token):
     if isinstance(w, list):
         return "B"
+    if w == CLOSE:
+        return "X"
     if "method" in w:
         if "id" in w:
             return "Q"
@@ -663,6 +693,12 @@ def configs_for(tier: str):
         for idk in ("uuid", "str", "digits"):
             for cb in (False, True):
                 deep.append({"T": T, "id": idk, "params": "nested", "cb": cb, "L": 2, "rich": True})
+    # the connection ends (read stream closed by the transport) at any point of a history
+    for T in (0.3, 1.0):
+        for idk in ("uuid", "digits"):
+            for cb in (False, True):
+                full.append({"T": T, "id": idk, "params": "none", "cb": cb, "L": 1, "rich": True, "eos": True})
+                deep.append({"T": T, "id": idk, "params": "none", "cb": cb, "L": 2, "rich": False, "eos": True})
     deeper = []
     for T in (0.3, 1.0):
         for idk in ("digits",):
@@ -714,7 +750,7 @@ def run(tier: str, only=None) -> core.Result:
         sched.absorb(res, "L3-all-placements", RUN, out, l3)
     res.coverage["exhaustive"] = True
     res.coverage["rule"] = (
-        "every history of incoming messages of length <= L over the alphabet {R,R0,E,O,Oe,N,Q,Qn,P-,P+,B,I} "
+        "every history of incoming messages of length <= L over the alphabet {R,R0,E,O,Oe,N,Q,Qn,P-,P+,B,I, X = the stream ends} "
         "(plus one optionally pre-queued message), each delivery placed at every point of the anchor-relative "
         "time menu (now, +eps, half-way, just before / exactly on (both tie orders) / just after the next library "
         "timer and the outer deadline); plus 2-3 calls one after the other on one connection or on separate connections "
